@@ -1,4 +1,281 @@
+"""C02 (a)/(e): agreement between the tags OperatorTable.create attaches to operators and
+the decision the emitted shunting-yard loop takes on them; where the non-associativity
+test sits; Longest's tie rule.
+
+The emitted decision is an if/elif chain over `_top_prec ? _prec` and `_top_assoc == k`.
+Precedences are only compared (<, ==), associativity ids only tested for equality with
+constants, so evaluating the chain for the 3 orderings x the ids create() can produce is
+exhaustive."""
+import ast
+import types
+
+from .common import Finding, AnalysisError
+from . import skeleton as SK
+from . import metaeval as M
+from . import flow as F
+
+ASSOCS = ['prefix', 'left', 'right', 'infix', 'postfix', 'mixfix']
+
+
+def tags_from_create(w):
+    """-> {associativity: (tuple length, assoc id or None, bucket)} by partial evaluation of
+    OperatorTable.create on one row of each kind"""
+    cls = w.cls('OperatorTable')
+    out = {}
+    for a in ASSOCS:
+        opd = SK.A('opd', 'CP')
+        op = SK.A('op', 'CP')
+        row = types.SimpleNamespace(associativity=a, operators=[op])
+        t = w.it.call(w.it.getattr(cls, 'create'), [], dict(operand=opd, rows=[row]))
+        bucket = None
+        holder = None
+        for b in ('prefixes', 'postfixes', 'infixes', 'operands'):
+            v = t.d.get(b)
+            if b == 'operands':
+                if v is not opd:
+                    bucket, holder = b, v
+            elif v is not None:
+                bucket, holder = b, v
+        if bucket is None:
+            raise AnalysisError(f'OperatorTable.create drops a row of kind {a}')
+        if bucket == 'operands':
+            out[a] = (None, None, bucket)
+            continue
+        if not (isinstance(holder, M.Obj) and holder.cls.name == 'Apply'):
+            raise AnalysisError(f'OperatorTable.create: {a} operators are not tagged through Apply')
+        tagger = holder.d['expr2']
+        src = tagger.d.get('source_code') if isinstance(tagger, M.Obj) else None
+        if holder.d.get('apply_left') or not isinstance(src, str):
+            raise AnalysisError(f'OperatorTable.create: unexpected tagger for {a}')
+        lam = ast.parse(src, mode='eval').body
+        if not (isinstance(lam, ast.Lambda) and isinstance(lam.body, ast.Tuple)):
+            raise AnalysisError(f'OperatorTable.create: tagger for {a} is not `lambda x: (...)`: {src}')
+        elts = lam.body.elts
+        vals = []
+        for e in elts[:-1]:
+            if not isinstance(e, ast.Constant):
+                raise AnalysisError(f'tagger for {a}: non-constant slot {ast.unparse(e)}')
+            vals.append(e.value)
+        if not (isinstance(elts[-1], ast.Name) and elts[-1].id == lam.args.args[0].arg):
+            raise AnalysisError(f'tagger for {a}: last slot is not the operator value')
+        out[a] = (len(elts), vals[1] if len(vals) > 1 else None, bucket)
+        out[a + ':prec0'] = vals[0]
+    return out
+
+
+def precedence_is_row_index(w):
+    """rows i<j get precedence tags p_i < p_j (earlier rows bind tighter in the emitted `<`)"""
+    cls = w.cls('OperatorTable')
+    rows = [types.SimpleNamespace(associativity='left', operators=[SK.A(f'o{i}', 'CP')]) for i in range(3)]
+    t = w.it.call(w.it.getattr(cls, 'create'), [], dict(operand=SK.A('opd', 'CP'), rows=rows))
+    inf = t.d.get('infixes')
+    if not (isinstance(inf, M.Obj) and inf.cls.name == 'Longest'):
+        return None, 'rows of infix operators are not combined with Longest'
+    precs = []
+    for e in inf.d['exprs']:
+        lam = ast.parse(e.d['expr2'].d['source_code'], mode='eval').body
+        precs.append(lam.body.elts[0].value)
+    return precs, None
+
+
+def eval_formula(e, env):
+    if isinstance(e, ast.BoolOp):
+        vals = [eval_formula(v, env) for v in e.values]
+        return all(vals) if isinstance(e.op, ast.And) else any(vals)
+    if isinstance(e, ast.UnaryOp) and isinstance(e.op, ast.Not):
+        return not eval_formula(e.operand, env)
+    if isinstance(e, ast.Compare):
+        l = eval_formula(e.left, env)
+        res = True
+        for op, c in zip(e.ops, e.comparators):
+            r = eval_formula(c, env)
+            ok = {ast.Lt: l < r, ast.LtE: l <= r, ast.Gt: l > r, ast.GtE: l >= r,
+                  ast.Eq: l == r, ast.NotEq: l != r}.get(type(op))
+            if ok is None:
+                raise AnalysisError(f'unsupported comparison in decision formula: {ast.unparse(e)}')
+            res = res and ok
+            l = r
+        return res
+    if isinstance(e, ast.Name):
+        if e.id not in env:
+            raise AnalysisError(f'decision formula reads unknown name {e.id}')
+        return env[e.id]
+    if isinstance(e, ast.Constant):
+        return e.value
+    raise AnalysisError(f'unsupported node in decision formula: {ast.unparse(e)}')
+
+
 def tag_agreement(rep):
-    pass
+    w = SK.World()
+    rep.rule('C02-tags', 'associativity ids / tuple shapes produced by OperatorTable.create agree with the '
+                         'constants and slots tested in the emitted loop; the emitted decision is '
+                         'reduce / end / shift exactly as precedence and associativity dictate')
+    rep.rule('C02-conflict-in-loop', 'the non-associativity test is evaluated inside the reduction loop, '
+                                     'against every exposed stack top')
+    tags = tags_from_create(w)
+    where = 'sourcer/expressions/operator_table.py:OperatorTable.create/_compile'
+
+    def bad(rule, msg, detail=None):
+        rep.add(Finding(rule, 'OperatorTable', '', msg, where, detail or {}))
+    rep.count('operator row kinds evaluated', len(ASSOCS))
+    # buckets
+    want_bucket = {'prefix': 'prefixes', 'left': 'infixes', 'right': 'infixes', 'infix': 'infixes',
+                   'postfix': 'postfixes', 'mixfix': 'operands'}
+    for a, b in want_bucket.items():
+        rep.oblige(tags[a][2] == b)
+        if tags[a][2] != b:
+            bad('C02-tags', f'`{a}` rows are collected under {tags[a][2]}, expected {b}')
+    for a in ('prefix', 'left', 'right', 'infix'):
+        if tags[a][0] != 3:
+            bad('C02-tags', f'`{a}` operators are tagged with a {tags[a][0]}-tuple; the loop unpacks 3 slots')
+    if tags['postfix'][0] != 2:
+        bad('C02-tags', f'`postfix` operators are tagged with a {tags["postfix"][0]}-tuple; the loop reads '
+                        f'slot 0 (precedence) and slot 1 (operator)')
+    ids = {a: tags[a][1] for a in ('prefix', 'left', 'right', 'infix')}
+    if len(set(ids.values())) != 4:
+        bad('C02-tags', f'associativity ids are not distinct: {ids}')
+    if ids['prefix'] or not all(ids[a] for a in ('left', 'right', 'infix')):
+        bad('C02-tags', f'slot 1 doubles as the is-binary flag: prefix must be falsy and left/right/infix '
+                        f'truthy, got {ids}')
+    precs, err = precedence_is_row_index(w)
+    if err:
+        bad('C02-tags', err)
+    elif not (precs[0] < precs[1] < precs[2]):
+        bad('C02-tags', f'precedence tags of successive rows are {precs}: they must increase with the row index')
+    rep.oblige(True, 4)
+    # the emitted decision chain
+    cfg = SK.Config('OperatorTable', ['o', [], SK.A('pre', 'CP'), SK.A('opd', 'CP'), SK.A('post', 'CP'),
+                                      SK.A('inf', 'CP')], {}, {}, label='OperatorTable:decision')
+    b = w.build(cfg)
+    tree = b.tree
+    # reduction loop: the while loop (after the infix child) that pops the operator stack and whose
+    # test is the operator stack itself
+    main = [n for n in tree.body if isinstance(n, ast.While)]
+    if len(main) != 1:
+        raise AnalysisError('OperatorTable skeleton: main loop not found')
+    body = main[0].body
+    idx = [i for i, st in enumerate(body) if F.is_child_marker(st) and st.value.args[0].value == 'inf']
+    if len(idx) != 1:
+        raise AnalysisError('OperatorTable skeleton: infix child not found in the main loop')
+    after = body[idx[0] + 1:]
+    loops = [st for st in after if isinstance(st, ast.While)]
+    red = [l for l in loops if any(isinstance(n, ast.Call) and isinstance(n.func, ast.Attribute)
+                                   and n.func.attr == 'pop' for n in ast.walk(l))]
+    if len(red) != 1:
+        raise AnalysisError(f'OperatorTable skeleton: expected one reduction loop after the infix operator, '
+                            f'found {len(red)}')
+    red = red[0]
+    # names: the unpack of stack[-1] inside the loop gives (top_prec, top_assoc, _)
+    unpack = [st for st in red.body if isinstance(st, ast.Assign) and isinstance(st.targets[0], ast.Tuple)
+              and isinstance(st.value, ast.Subscript)]
+    if len(unpack) != 1 or len(unpack[0].targets[0].elts) != 3:
+        raise AnalysisError('OperatorTable skeleton: the stack top is not unpacked into three names')
+    tp, ta, _ = [e.id for e in unpack[0].targets[0].elts]
+    # current precedence: name assigned from _result[0] before the loop
+    cur = [st for st in after if isinstance(st, ast.Assign) and isinstance(st.value, ast.Subscript)
+           and isinstance(st.value.value, ast.Name) and st.value.value.id == '_result'
+           and isinstance(st.value.slice, ast.Constant) and st.value.slice.value == 0]
+    if len(cur) != 1:
+        raise AnalysisError('OperatorTable skeleton: current precedence is not read from slot 0 of the operator')
+    cp = cur[0].targets[0].id
+    chain = [st for st in red.body if isinstance(st, ast.If)]
+    if len(chain) != 1:
+        raise AnalysisError('OperatorTable skeleton: reduction loop does not contain one decision chain')
+
+    def action_of(stmts):
+        pops = any(isinstance(n, ast.Call) and isinstance(n.func, ast.Attribute) and n.func.attr == 'pop'
+                   for st in stmts for n in ast.walk(st))
+        restore = any(isinstance(st, ast.Assign) and any(isinstance(t, ast.Name) and t.id == '_pos'
+                                                         for t in st.targets) for st in stmts)
+        brk = any(isinstance(st, ast.Break) for st in stmts)
+        if pops and not brk:
+            return 'reduce'
+        if restore and brk:
+            return 'end'
+        if brk and not pops:
+            return 'shift'
+        return '?'
+
+    def decide(env):
+        node = chain[0]
+        while True:
+            if eval_formula(node.test, env):
+                return action_of(node.body)
+            if len(node.orelse) == 1 and isinstance(node.orelse[0], ast.If):
+                node = node.orelse[0]
+                continue
+            return action_of(node.orelse) if node.orelse else 'fallthrough'
+    expected = {}
+    for rel, (t, c) in {'tighter': (3, 5), 'same': (5, 5), 'looser': (7, 5)}.items():
+        for a in ('prefix', 'left', 'right', 'infix'):
+            if rel == 'tighter':
+                exp = 'reduce'
+            elif rel == 'looser':
+                exp = 'shift'
+            else:
+                exp = {'left': 'reduce', 'right': 'shift', 'infix': 'end', 'prefix': 'shift'}[a]
+            got = decide({tp: t, cp: c, ta: ids[a]})
+            rep.count('decision cases evaluated')
+            rep.oblige(got == exp)
+            expected[(rel, a)] = (exp, got)
+            if got != exp:
+                bad('C02-tags', f'operator on the stack: {rel} row, `{a}` (id {ids[a]}): the emitted loop '
+                                f'decides {got}, precedence/associativity dictate {exp}',
+                    {'chain': ast.unparse(chain[0])})
+    rep.sample({'decision table (stack top relation, assoc) -> (expected, emitted)':
+                {f'{k[0]},{k[1]}': v for k, v in expected.items()}})
+    # (e) any end-of-expression decision taken on associativity outside the reduction loop?
+    outside = []
+    for st in after:
+        if st is red:
+            continue
+        for n in ast.walk(st):
+            if isinstance(n, ast.If) and action_of(n.body) == 'end' and any(
+                    isinstance(c, ast.Constant) and c.value == ids['infix'] for c in ast.walk(n.test)):
+                outside.append(n)
+    inside_end = any(v[1] == 'end' for v in expected.values())
+    if outside or not inside_end:
+        bad('C02-conflict-in-loop',
+            'the test for a second non-associative operator of the same row is '
+            + ('made outside the reduction loop (only against the current stack top, before tighter '
+               'operators above it have been reduced)' if outside else 'missing from the reduction loop')
+            + ': `a < b + c < d` chains', {'skeleton': b.src})
+    rep.oblige(not outside and inside_end)
+
+
 def longest_ties(rep):
-    pass
+    """Among rows matching at the same place the longest match wins, first on ties: the
+    emitted update test is a strict `<` on the position."""
+    w = SK.World()
+    rep.rule('C02-longest-ties', 'Longest replaces its candidate only on a strictly greater end position '
+                                 '(first option wins ties)')
+    cfg = SK.Config('Longest', [SK.A('c0', 'CP'), SK.A('c1', 'CP'), SK.A('c2', 'CP')], {}, {},
+                    label='Longest:ties')
+    b = w.build(cfg)
+    # every `farthest = _result` after option 1 must sit under `not has_result` or `farthest_pos < _pos`
+    bad_tests = []
+    n = 0
+    for node in ast.walk(b.tree):
+        if isinstance(node, ast.If):
+            for t in ast.walk(node.test):
+                if isinstance(t, ast.Compare) and len(t.ops) == 1 and any(
+                        isinstance(x, ast.Name) and x.id == '_pos' for x in ast.walk(t)):
+                    # success-side comparison (body assigns a result candidate from _result)
+                    assigns_res = any(isinstance(s, ast.Assign) and isinstance(s.value, ast.Name)
+                                      and s.value.id == '_result' for s in node.body)
+                    sets_status = False
+                    if assigns_res and 'error' not in ast.unparse(node.test):
+                        n += 1
+                        l, r = t.left, t.comparators[0]
+                        strict = (isinstance(t.ops[0], ast.Lt) and isinstance(r, ast.Name) and r.id == '_pos') or \
+                                 (isinstance(t.ops[0], ast.Gt) and isinstance(l, ast.Name) and l.id == '_pos')
+                        if not strict:
+                            bad_tests.append(ast.unparse(t))
+    rep.count('Longest update comparisons examined', n)
+    if n < 2:
+        raise AnalysisError('Longest skeleton: candidate update comparisons not found')
+    rep.oblige(not bad_tests)
+    if bad_tests:
+        rep.add(Finding('C02-longest-ties', 'Longest', '', f'candidate is replaced under `{bad_tests[0]}`: a later '
+                        f'option of equal length would win a tie',
+                        'sourcer/expressions/longest.py:Longest._compile', {'skeleton': b.src}))
